@@ -143,95 +143,156 @@ func runC10(r *Run) {
 	})
 
 	r.rule("R2", "trust decision: connection + configuration only; flag↔predicate pairing; `return true` needs a membership predicate (E3/E8/E1)", func() {
-		f := r.Fn("", "(*DefaultCtx).IsProxyTrusted")
-		// no request-derived input
-		for _, c := range callsIn(f, true) {
-			bad := false
-			if sc := c.Common.StaticCallee(); sc != nil && sc.Signature.Recv() != nil {
-				rt := types.TypeString(sc.Signature.Recv().Type(), nil)
-				if strings.Contains(rt, "fasthttp.RequestHeader") || strings.Contains(rt, "fasthttp.Request") && !strings.Contains(rt, "RequestCtx") ||
-					strings.Contains(rt, "fasthttp.URI") || strings.Contains(rt, "fasthttp.Args") || strings.Contains(rt, fiberMod+".DefaultCtx") {
-					bad = true
-				}
+		root := r.Fn("", "(*DefaultCtx).IsProxyTrusted")
+		// the decision may be spread over helpers: IsProxyTrusted and its static callees inside package fiber
+		var fns []*ssa.Function
+		seen := map[*ssa.Function]bool{}
+		var walk func(f *ssa.Function)
+		walk = func(f *ssa.Function) {
+			if f == nil || seen[f] || f.Pkg == nil || f.Pkg.Pkg.Path() != fiberMod || len(f.Blocks) == 0 {
+				return
 			}
-			if c.Common.IsInvoke() && isCtxIface(c.Common.Value.Type()) {
-				bad = true
-			}
-			if bad {
-				r.bad("IsProxyTrusted:input:"+short(c.Name), r.pos(c.Instr), "the trust decision calls "+short(c.Name)+": it must depend on the connection and configuration only, never on request data")
+			seen[f] = true
+			fns = append(fns, f)
+			for _, c := range callsIn(f, true) {
+				walk(c.Common.StaticCallee())
 			}
 		}
-		rip := callsMatching(f, false, nameHasSuffix("RequestCtx).RemoteIP"))
-		r.check(len(rip) == 1, "IsProxyTrusted:uses-RemoteIP", r.fpos(f), "peer address comes from RequestCtx.RemoteIP()", "peer address is not taken from RequestCtx.RemoteIP()")
+		walk(root)
+		r.count("trust-decision functions", len(fns))
+		isPeer := func(f *ssa.Function) func(v ssa.Value) bool {
+			return func(v ssa.Value) bool {
+				if c, ok := v.(*ssa.Call); ok && strings.HasSuffix(calleeName(&c.Call), "RequestCtx).RemoteIP") {
+					return true
+				}
+				if p, ok := v.(*ssa.Parameter); ok && types.TypeString(p.Type(), nil) == "net.IP" {
+					return true // helper receiving the peer address
+				}
+				return false
+			}
+		}
+		// inputs: no request data, no per-request state of the pooled context that is not re-initialised
+		resetFields, _, _ := poolReset(r, "", "DefaultCtx", []string{"(*DefaultCtx).Reset", "(*DefaultCtx).release", "(*DefaultCtx).configDependentPaths"})
+		nRIP := 0
+		for _, f := range fns {
+			for _, c := range callsIn(f, true) {
+				bad := false
+				if sc := c.Common.StaticCallee(); sc != nil && sc.Signature.Recv() != nil {
+					rt := types.TypeString(sc.Signature.Recv().Type(), nil)
+					if strings.Contains(rt, "fasthttp.RequestHeader") || strings.Contains(rt, "fasthttp.Request") && !strings.Contains(rt, "RequestCtx") ||
+						strings.Contains(rt, "fasthttp.URI") || strings.Contains(rt, "fasthttp.Args") {
+						bad = true
+					}
+					if strings.Contains(rt, fiberMod+".DefaultCtx") && !seen[sc] {
+						bad = true
+					}
+				}
+				if c.Common.IsInvoke() && isCtxIface(c.Common.Value.Type()) {
+					bad = true
+				}
+				if bad {
+					r.bad("IsProxyTrusted:input:"+short(c.Name), r.pos(c.Instr), "the trust decision calls "+short(c.Name)+": it must depend on the connection and configuration only, never on request data")
+				}
+				if strings.HasSuffix(c.Name, "RequestCtx).RemoteIP") {
+					nRIP++
+				}
+			}
+			for _, fr := range fieldRefs(f) {
+				if !strings.HasPrefix(fr.Name, "DefaultCtx.") || fr.Name == "DefaultCtx.app" || fr.Name == "DefaultCtx.fasthttp" {
+					continue
+				}
+				r.check(resetFields[fr.Name], "IsProxyTrusted:state:"+fr.Name, r.pos(fr.Instr), "per-request field that is re-initialised for every request",
+					"the trust decision uses "+fr.Name+", a field of the pooled context that is not re-initialised per request: the verdict computed for one peer is reused for the next peer served by the same context")
+			}
+		}
+		r.check(nRIP >= 1, "IsProxyTrusted:uses-RemoteIP", r.fpos(root), "peer address comes from RequestCtx.RemoteIP()", "peer address is not taken from RequestCtx.RemoteIP()")
 		// pairing
 		pairs := map[string]string{"Loopback": "IsLoopback", "Private": "IsPrivate", "LinkLocal": "IsLinkLocalUnicast"}
-		memberCut := map[edge]bool{}
+		retTrue := func(in ssa.Instruction) bool { _, c, v := retConstBool(in); return c && v }
 		for _, flag := range []string{"Loopback", "Private", "LinkLocal"} {
 			pred := pairs[flag]
 			found := false
-			for _, br := range branchesIn(f) {
-				if !loadOfField(br.Info.Root, "TrustProxyConfig."+flag) {
-					continue
+			for _, f := range fns {
+				for _, br := range branchesIn(f) {
+					if !loadOfField(br.Info.Root, "TrustProxyConfig."+flag) {
+						continue
+					}
+					s, ok := br.truthSlot(true)
+					if !ok {
+						continue
+					}
+					tgt := br.If.Block().Succs[s]
+					predCalls := callsMatching(f, false, nameIs("(net.IP)."+pred))
+					cut := map[edge]bool{}
+					for _, pc := range predCalls {
+						if dependsOn(pc.Common.Args[0], isPeer(f)) == nil {
+							continue
+						}
+						for _, pb := range ifsOnValue(f, pc.Value()) {
+							if ps, ok := pb.truthSlot(true); ok {
+								cut[edge{pb.If.Block(), ps}] = true
+							}
+						}
+					}
+					for _, of := range []string{"Loopback", "Private", "LinkLocal"} {
+						if of == flag {
+							continue
+						}
+						for _, ob := range branchesIn(f) {
+							if loadOfField(ob.Info.Root, "TrustProxyConfig."+of) {
+								if os, ok := ob.truthSlot(true); ok {
+									cut[edge{ob.If.Block(), os}] = true
+								}
+							}
+						}
+					}
+					for e := range listCuts(f) {
+						cut[e] = true
+					}
+					_, hit := reach(point{tgt, 0}, retTrue, cut, nil)
+					found = true
+					r.check(len(predCalls) > 0 && hit == nil, "IsProxyTrusted:"+flag+"↔"+pred, r.pos(br.If),
+						"with "+flag+" set, acceptance by class needs "+pred+"(peer address)", "class flag "+flag+" is not paired with "+pred+" on the peer address: a peer outside the class can be trusted")
 				}
-				s, ok := br.truthSlot(true)
-				if !ok {
-					continue
-				}
-				tgt := br.If.Block().Succs[s]
-				// the flag-true edge must lead to its predicate before any `return true`
-				predCalls := callsMatching(f, false, nameIs("(net.IP)."+pred))
-				cut := map[edge]bool{}
-				for _, pc := range predCalls {
-					if dependsOn(pc.Common.Args[0], func(v ssa.Value) bool { return len(rip) == 1 && v == rip[0].Value() }) == nil {
+			}
+			if !found {
+				r.bad("IsProxyTrusted:"+flag+"↔"+pred, r.fpos(root), "flag TrustProxyConfig."+flag+" is never tested")
+			}
+		}
+		// `return true` needs a membership predicate (or TrustProxy off), in whichever function produces it
+		okAll := true
+		wit := ""
+		for _, f := range fns {
+			memberCut := map[edge]bool{}
+			for _, pred := range pairs {
+				for _, pc := range callsMatching(f, false, nameIs("(net.IP)."+pred)) {
+					if dependsOn(pc.Common.Args[0], isPeer(f)) == nil {
 						continue
 					}
 					for _, pb := range ifsOnValue(f, pc.Value()) {
 						if ps, ok := pb.truthSlot(true); ok {
-							cut[edge{pb.If.Block(), ps}] = true
 							memberCut[edge{pb.If.Block(), ps}] = true
 						}
 					}
 				}
-				// other flags' true edges are cut as well so that only this flag's class can accept
-				for _, of := range []string{"Loopback", "Private", "LinkLocal"} {
-					if of == flag {
-						continue
-					}
-					for _, ob := range branchesIn(f) {
-						if loadOfField(ob.Info.Root, "TrustProxyConfig."+of) {
-							if os, ok := ob.truthSlot(true); ok {
-								cut[edge{ob.If.Block(), os}] = true
-							}
-						}
+			}
+			for e := range listCuts(f) {
+				memberCut[e] = true
+			}
+			for _, br := range branchesIn(f) {
+				if loadOfField(br.Info.Root, "Config.TrustProxy") {
+					if s, ok := br.truthSlot(false); ok {
+						memberCut[edge{br.If.Block(), s}] = true
 					}
 				}
-				// stop at the explicit-list part: cut map lookup / ranges too
-				for e := range listCuts(f) {
-					cut[e] = true
-				}
-				_, hit := reach(point{tgt, 0}, func(in ssa.Instruction) bool { _, c, v := retConstBool(in); return c && v }, cut, nil)
-				found = true
-				r.check(len(predCalls) > 0 && hit == nil, "IsProxyTrusted:"+flag+"↔"+pred, r.pos(br.If),
-					"with "+flag+" set, acceptance by class needs "+pred+"(RemoteIP)", "class flag "+flag+" is not paired with "+pred+" on the peer address: a peer outside the class can be trusted")
 			}
-			if !found {
-				r.bad("IsProxyTrusted:"+flag+"↔"+pred, r.fpos(f), "flag TrustProxyConfig."+flag+" is never tested")
+			if path, hit := reach(entryOf(f), retTrue, memberCut, nil); hit != nil {
+				okAll = false
+				wit = f.Name() + ": " + pathString(r.P, path)
 			}
 		}
-		for e := range listCuts(f) {
-			memberCut[e] = true
-		}
-		// TrustProxy off → true (documented)
-		for _, br := range branchesIn(f) {
-			if loadOfField(br.Info.Root, "Config.TrustProxy") {
-				if s, ok := br.truthSlot(false); ok {
-					memberCut[edge{br.If.Block(), s}] = true
-				}
-			}
-		}
-		path, hit := reach(entryOf(f), func(in ssa.Instruction) bool { _, c, v := retConstBool(in); return c && v }, memberCut, nil)
-		r.check(hit == nil, "IsProxyTrusted:true-needs-membership", r.fpos(f), "`return true` is unreachable without TrustProxy off or a successful membership predicate",
-			"`return true` is reachable without any membership predicate succeeding: "+pathString(r.P, path))
+		r.check(okAll, "IsProxyTrusted:true-needs-membership", r.fpos(root), "`return true` is unreachable without TrustProxy off or a successful membership predicate",
+			"`return true` is reachable without any membership predicate succeeding: "+wit)
 	})
 
 	r.rule("R3", "with EnableIPValidation a header-derived IP is returned only after IsIPv4/IsIPv6 accepted it (E1)", func() {
@@ -247,6 +308,27 @@ func runC10(r *Run) {
 			}
 		}
 		r.check(nv >= 2, "extractIPFromHeader:validators", r.fpos(f), "IsIPv4 and IsIPv6 are consulted", "IP validators are not consulted")
+		// the validators judge the very string that is returned
+		var headerRets []ssa.Value
+		for _, in := range instrsWhere(f, isReturn) {
+			v := retOperand(in.(*ssa.Return), 0)
+			if dependsOn(v, func(x ssa.Value) bool {
+				c, ok := x.(*ssa.Call)
+				return ok && strings.HasSuffix(calleeName(&c.Call), "RequestCtx).RemoteIP")
+			}) == nil {
+				headerRets = append(headerRets, v)
+			}
+		}
+		for i, c := range callsMatching(f, false, nameIs("github.com/gofiber/utils/v2.IsIPv4", "github.com/gofiber/utils/v2.IsIPv6")) {
+			same := false
+			for _, hv := range headerRets {
+				if c.Common.Args[0] == hv {
+					same = true
+				}
+			}
+			r.check(same, fmt.Sprintf("extractIPFromHeader:validator#%d-judges-returned-value", i+1), r.pos(c.Instr), "the validated string is the returned one",
+				"a validator is applied to a different string than the one returned (e.g. only the tail after the last ':'): `junk:10.0.0.1` is reported as client IP")
+		}
 		var starts []point
 		for _, br := range branchesIn(f) {
 			if loadOfField(br.Info.Root, "Config.EnableIPValidation") {
